@@ -51,6 +51,7 @@ fn main() {
         "C12" => props::c12::run(&mut ctx),
         "C16" => props::c16::run(&mut ctx),
         "C17" => props::c17::run(&mut ctx),
+        "C19" => props::c19::run(&mut ctx),
         "C18" => props::c18::run(&mut ctx),
         "C13" => props::c13::run(&mut ctx),
         "C14" => props::c14::run(&mut ctx),
@@ -159,6 +160,27 @@ fn main() {
                 let r = witgen::encode_wit_package(&named, wit).expect("wit encode");
                 println!("=== reference\n{}", wasmprinter::print_bytes(&r).unwrap());
             }
+        }
+        "debug-c17-lib" => {
+            // worker debug-c17-lib --scratch DIR : writes the C17/C19 package library as DIR/<ns>/<name>[@ver].wasm
+            let lib = props::c17::build_lib().expect("lib");
+            for ((name, ver), bytes) in &lib.all {
+                let (ns, n) = name.split_once(':').unwrap();
+                let dir = std::path::Path::new(&ctx.scratch).join(ns);
+                std::fs::create_dir_all(&dir).unwrap();
+                let f = match ver {
+                    Some(v) => dir.join(format!("{n}@{v}.wasm")),
+                    None => dir.join(format!("{n}.wasm")),
+                };
+                std::fs::write(f, bytes).unwrap();
+            }
+        }
+        "debug-build-comp" => {
+            // worker debug-build-comp --replay-input f.json --scratch out.wasm ; f.json = {"lib":[..texts],"world":"text"}
+            let v = ctx.replay_input.clone().expect("input");
+            let libs: Vec<(String, String)> = v["lib"].as_array().unwrap().iter().enumerate().map(|(i, t)| (format!("lib{i}"), t.as_str().unwrap().to_string())).collect();
+            let b = witgen::build_component(&libs, v["world"].as_str().unwrap(), "w").expect("build");
+            std::fs::write(&ctx.scratch, b).unwrap();
         }
         "debug-parse" => {
             // worker debug-parse --replay-input file.json  (json string = source text)
